@@ -513,7 +513,7 @@ ContextMsgs(P, cx) ==
        [] cx = "flatchild" -> <<w(<<F("zz", "zz", 1, "string", "one"), Ann(FRef("a", "a", 2, "message", "one", an), "flatten", TRUE)>>)>>
        [] cx = "discvar"   -> <<MsgO("W", FN(P, "W"), <<InOneof(FRef("a", "a", 1, "message", "one", an), "o"), InOneof(FRef("b", "b", 2, "message", "one", FN(P, "Child2")), "o")>>,
                                       <<Oneof("o", TRUE, "kind", FALSE)>>)>>
-       [] cx = "unwrapsib" -> <<Msg("UL", FN(P, "UL"), <<Ann(F("vals", "vals", 1, "string", "rep"), "unwrap", TRUE)>>),
+       [] cx = "unwrapsib" -> <<Msg("UL", FN(P, "UL"), <<Ann(FRef("vals", "vals", 1, "message", "rep", FN(P, "Child")), "unwrap", TRUE)>>),
                                 w(<<FMap("by_key", "byKey", 1, "string", "message", FN(P, "UL")), FRef("a", "a", 2, "message", "one", an)>>)>>
 C05Case(P, c, cx) ==
   LET top == IF cx = "top" THEN FN(P, "A") ELSE FN(P, "W")
